@@ -163,31 +163,57 @@ var c27Chunks = []struct{ name, text string }{
 	{"func-decl", "func d%d_@() int {\n\treturn 1\n}\n"},
 	{"block-comment-then-statement", "/* two\n   lines */ e%d_@ := 2\n"},
 	{"statement-trailing-comments", "f%d_@ := 3 // t\n// after\n"},
+	// token-less chunks of several lines (general comments standing alone between chunks)
+	{"block-comment-alone-2", "/* alone\n   two */\n"},
+	{"block-comment-alone-4-then-line-comment", "/* alone\n\n * four\n */ // tail\n"},
+	// earlier chunks that fail: their lines count all the same
+	{"failing-statement", "undefinedq%d_@ +\n\t1\n"},
+	{"unterminated-string", "s%d_@ := \"abc\n"},
+}
+
+// chunk kinds without any token: as long as only these precede it, a chunk is the first code of the input
+var c27TokenLess = map[string]bool{"comment-1": true, "comment-3": true, "blank-2": true, "block-comment-alone-2": true,
+	"block-comment-alone-4-then-line-comment": true, "#!": true}
+
+// what may stand in front of the first token of the last chunk, inside that chunk
+var c27Leads = []struct{ name, text string }{
+	{"nothing", ""},
+	{"block comment on the same line", "/* c */ "},
+	{"multi-line block comment ending on the same line", "/* a\n   b */ "},
+	{"blanks", "\t  "},
 }
 
 const c27Shebang = "#!/usr/bin/env gomacro\n"
 
 type c27Source struct {
-	Kind   string `json:"error_kind"`
-	Text   string `json:"text"`
-	Marker string `json:"marker"` // the offending token (literal of the go/scanner token whose position is expected)
-	Descr  string `json:"descr"`
+	Kind      string `json:"error_kind"`
+	Text      string `json:"text"`
+	Marker    string `json:"marker"` // the offending token (literal of the go/scanner token whose position is expected)
+	Descr     string `json:"descr"`
+	Lead      string `json:"lead,omitempty"`       // what precedes the first token of the last chunk inside that chunk
+	FirstCode bool   `json:"first_code,omitempty"` // no token precedes the last chunk
+	CRLF      bool   `json:"crlf,omitempty"`       // CR LF line ends
 }
 
 // last chunks: %s slots receive "ok" operands except one that receives the error token.
 type c27Last struct {
 	name  string
 	parts []string // text between slots; len(parts) = slots+1
+	extra bool     // generated for the short prefixes and one error kind only
 }
 
 var c27Lasts = []c27Last{
-	{"one-line", []string{"z%d := ", " + ", "\n"}},
-	{"multi-line", []string{"z%d := ", " +\n\t\t", " + ", " +\n", "\n"}},
-	{"call-lines", []string{"z%d := max%d(", ",\n\t", ",\n", ")\n"}},
+	{"one-line", []string{"z%d := ", " + ", "\n"}, false},
+	{"multi-line", []string{"z%d := ", " +\n\t\t", " + ", " +\n", "\n"}, false},
+	{"call-lines", []string{"z%d := max%d(", ",\n\t", ",\n", ")\n"}, false},
+	// the offending token lies behind byte 4096 of its line (bufio's buffer size), the byte 4096 inside a number or behind an operator
+	{"long-line-a", []string{"z%d := " + strings.Repeat("1234567+", 520), " + ", "\n"}, true},
+	{"long-line-b", []string{"zz%d := " + strings.Repeat("1234567+", 520), " + ", "\n"}, true},
 }
 
 func c27Sources(c *core.Ctx) []c27Source {
-	maxPrefix := c.Pick(2, 4) // thorough: all prefixes of <= 3 chunks with every kind and slot, prefixes of 4 chunks with a reduced error set
+	maxPrefix := c.Pick(2, 4) // thorough: all prefixes of <= 3 chunks with every kind and slot, prefixes of 4 chunks with one error
+	maxExtra := c.Pick(1, 2)  // longest prefix for the extra dimensions: lead-ins of the last chunk, CR LF line ends, long lines
 	var prefixes [][]int
 	var rec func(cur []int)
 	rec = func(cur []int) {
@@ -207,7 +233,8 @@ func c27Sources(c *core.Ctx) []c27Source {
 			if shebang && len(pre) > c.Pick(1, 2) {
 				continue
 			}
-			reduced := len(pre) == 4 // longest prefixes: one error kind at one slot, one debugger stop
+			reduced := len(pre) == 4 // longest prefixes: one error kind at one slot
+			extras := len(pre) <= maxExtra
 			var names []string
 			build := func(id int) string {
 				var sb strings.Builder
@@ -223,10 +250,20 @@ func c27Sources(c *core.Ctx) []c27Source {
 			if shebang {
 				names = append(names, "#!")
 			}
+			firstCode := true
 			for _, ci := range pre {
 				names = append(names, c27Chunks[ci].name)
+				if !c27TokenLess[c27Chunks[ci].name] {
+					firstCode = false
+				}
 			}
 			descr := strings.Join(names, ",")
+			finish := func(text string, crlf bool) string {
+				if crlf {
+					return strings.Replace(text, "\n", "\r\n", -1)
+				}
+				return text
+			}
 			// error tokens at every slot of every last chunk
 			for _, last := range c27Lasts {
 				slots := len(last.parts) - 1
@@ -235,65 +272,94 @@ func c27Sources(c *core.Ctx) []c27Source {
 						if reduced && !(kind == "undefined-identifier" && last.name == "multi-line" && k == 1) {
 							continue
 						}
-						n++
-						id := n
-						var sb strings.Builder
-						sb.WriteString(build(id))
-						if last.name == "call-lines" {
-							fmt.Fprintf(&sb, "func max%d(a, b, c int) int { return a }\n", id)
+						if last.extra && !(extras && kind == "undefined-identifier") {
+							continue
 						}
-						marker := ""
-						for s := 0; s <= slots; s++ {
-							sb.WriteString(strings.Replace(last.parts[s], "%d", strconv.Itoa(id), -1))
-							if s == slots {
-								break
-							}
-							if s != k {
-								sb.WriteString(strconv.Itoa(10 + s))
-								continue
-							}
-							switch kind {
-							case "undefined-identifier":
-								marker = fmt.Sprintf("undefined%d", id)
-								sb.WriteString(marker)
-							case "illegal-character":
-								marker = "$"
-								sb.WriteString("$")
-							default:
-								marker = fmt.Sprintf("z%d", id) // len(z<id>): z<id> is not yet defined... use an int instead
-								marker = "77777"
-								sb.WriteString("len(77777)")
+						for li, lead := range c27Leads {
+							for _, crlf := range []bool{false, true} {
+								// the extra dimensions are explored one at a time, with the undefined identifier, on the short prefixes
+								if (li > 0 || crlf) && !(extras && kind == "undefined-identifier" && !last.extra) || (li > 0 && crlf) {
+									continue
+								}
+								n++
+								id := n
+								var sb strings.Builder
+								sb.WriteString(build(id))
+								if last.name == "call-lines" {
+									fmt.Fprintf(&sb, "func max%d(a, b, c int) int { return a }\n", id)
+								}
+								sb.WriteString(lead.text)
+								marker := ""
+								for s := 0; s <= slots; s++ {
+									sb.WriteString(strings.Replace(last.parts[s], "%d", strconv.Itoa(id), -1))
+									if s == slots {
+										break
+									}
+									if s != k {
+										sb.WriteString(strconv.Itoa(10 + s))
+										continue
+									}
+									switch kind {
+									case "undefined-identifier":
+										marker = fmt.Sprintf("undefined%d", id)
+										sb.WriteString(marker)
+									case "illegal-character":
+										marker = "$"
+										sb.WriteString("$")
+									default:
+										marker = "77777"
+										sb.WriteString("len(77777)")
+									}
+								}
+								d := descr + " + " + last.name + fmt.Sprintf(" slot %d", k)
+								if li > 0 {
+									d += ", its first token preceded in the chunk by " + lead.name
+								}
+								if crlf {
+									d += ", CR LF line ends"
+								}
+								out = append(out, c27Source{Kind: kind, Text: finish(sb.String(), crlf), Marker: marker, Descr: d,
+									Lead: lead.name, FirstCode: firstCode && last.name != "call-lines", CRLF: crlf})
 							}
 						}
-						out = append(out, c27Source{Kind: kind, Text: sb.String(), Marker: marker, Descr: descr + " + " + last.name + fmt.Sprintf(" slot %d", k)})
 					}
 				}
 			}
 			// debugger stops: "break" at every statement position of a function in the last chunks
 			for k := 0; k < 4; k++ {
-				if reduced && k != 1 {
+				if reduced {
 					continue
 				}
-				n++
-				id := n
-				stmts := []string{"\tx := 1\n", "\ty := x +\n\t\t2\n", "\tx, y = y, x\n"}
-				var sb strings.Builder
-				sb.WriteString(build(id))
-				fmt.Fprintf(&sb, "func g%d() int {\n", id)
-				for j := 0; j <= len(stmts); j++ {
-					if j == k {
-						if k == 3 {
-							sb.WriteString("\tx++; \"break\"\n")
-						} else {
-							sb.WriteString("\t\"break\"\n")
+				for li, lead := range c27Leads {
+					if li > 0 && !(extras && k == 1) {
+						continue
+					}
+					n++
+					id := n
+					stmts := []string{"\tx := 1\n", "\ty := x +\n\t\t2\n", "\tx, y = y, x\n"}
+					var sb strings.Builder
+					sb.WriteString(build(id))
+					sb.WriteString(lead.text)
+					fmt.Fprintf(&sb, "func g%d() int {\n", id)
+					for j := 0; j <= len(stmts); j++ {
+						if j == k {
+							if k == 3 {
+								sb.WriteString("\tx++; \"break\"\n")
+							} else {
+								sb.WriteString("\t\"break\"\n")
+							}
+						}
+						if j < len(stmts) {
+							sb.WriteString(stmts[j])
 						}
 					}
-					if j < len(stmts) {
-						sb.WriteString(stmts[j])
+					fmt.Fprintf(&sb, "\treturn x + y\n}\n// call it\ng%d()\n", id)
+					d := descr + fmt.Sprintf(" + function with \"break\" as statement %d", k)
+					if li > 0 {
+						d += ", its first token preceded in the chunk by " + lead.name
 					}
+					out = append(out, c27Source{Kind: "debugger-stop", Text: sb.String(), Marker: "\"break\"", Descr: d, Lead: lead.name, FirstCode: firstCode})
 				}
-				fmt.Fprintf(&sb, "\treturn x + y\n}\n// call it\ng%d()\n", id)
-				out = append(out, c27Source{Kind: "debugger-stop", Text: sb.String(), Marker: "\"break\"", Descr: descr + fmt.Sprintf(" + function with \"break\" as statement %d", k)})
 			}
 		}
 	}
@@ -424,22 +490,44 @@ func (w *c27World) check(c *core.Ctx, src c27Source) {
 		c.Eval(1)
 		file, line, col, srcLine, raw, wantFile := w.run(src, mode)
 		cas := map[string]interface{}{"kind": "source", "source": src, "mode": mode}
-		where := fmt.Sprintf("%s of [%s], %s at the expected position %d:%d; source:\n%s", c27Modes[mode], src.Descr, src.Kind, wl, wc, src.Text)
+		viol := func(sig, what string, cas interface{}) {
+			c.Count("mismatches["+sig+"]", 1) // every class is counted, also when the framework keeps no more examples
+			c.Violation(sig, what, cas)
+		}
+		shown := src.Text
+		if len(shown) > 700 {
+			shown = shown[:300] + fmt.Sprintf(" …(%d bytes)… ", len(shown)-600) + shown[len(shown)-300:]
+		}
+		where := fmt.Sprintf("%s of [%s], %s at the expected position %d:%d; source:\n%s", c27Modes[mode], src.Descr, src.Kind, wl, wc, shown)
 		sigCtx := "last chunk preceded by: " + c27PrefixClass(src.Descr)
+		colCtx := "token preceded in its chunk by " + src.Lead
+		if src.Lead == "" {
+			colCtx = "token preceded in its chunk by nothing"
+		}
+		if src.FirstCode {
+			colCtx += "|first code of the input"
+		}
+		if src.CRLF {
+			sigCtx += "|CR LF line ends"
+			colCtx += "|CR LF line ends"
+		}
 		switch {
 		case line == 0:
 			if len(raw) > 300 {
 				raw = raw[:300]
 			}
-			c.Violation("C27|"+src.Kind+"|no position reported|"+c27Modes[mode], fmt.Sprintf("%s: no position reported; output %q", where, raw), cas)
+			viol("C27|"+src.Kind+"|no position reported|"+c27Modes[mode], fmt.Sprintf("%s: no position reported; output %q", where, raw), cas)
+		case line != wl && c27PrefixClass(src.Descr) == "unterminated-string":
+			// one class per mode, whatever the error kind: the chunk with the unterminated literal is counted one line short
+			viol("C27|line|"+c27Modes[mode]+"|an earlier chunk ends in an unterminated string literal", fmt.Sprintf("%s: reported %s:%d:%d", where, file, line, col), cas)
 		case line != wl:
-			c.Violation("C27|"+src.Kind+"|line|"+c27Modes[mode]+"|"+sigCtx, fmt.Sprintf("%s: reported %s:%d:%d", where, file, line, col), cas)
+			viol("C27|"+src.Kind+"|line|"+c27Modes[mode]+"|"+sigCtx, fmt.Sprintf("%s: reported %s:%d:%d", where, file, line, col), cas)
 		case col != wc:
-			c.Violation("C27|"+src.Kind+"|column|"+c27Modes[mode], fmt.Sprintf("%s: reported %s:%d:%d", where, file, line, col), cas)
+			viol("C27|"+src.Kind+"|column|"+c27Modes[mode]+"|"+colCtx, fmt.Sprintf("%s: reported %s:%d:%d", where, file, line, col), cas)
 		case file != wantFile:
-			c.Violation("C27|"+src.Kind+"|file name|"+c27Modes[mode], fmt.Sprintf("%s: reported file %q, want %q", where, file, wantFile), cas)
+			viol("C27|"+src.Kind+"|file name|"+c27Modes[mode], fmt.Sprintf("%s: reported file %q, want %q", where, file, wantFile), cas)
 		case src.Kind == "debugger-stop" && srcLine != wsrc:
-			c.Violation("C27|"+src.Kind+"|source line|"+c27Modes[mode], fmt.Sprintf("%s: the source line shown is %q, want %q", where, srcLine, wsrc), cas)
+			viol("C27|"+src.Kind+"|source line|"+c27Modes[mode], fmt.Sprintf("%s: the source line shown is %q, want %q", where, srcLine, wsrc), cas)
 		}
 	}
 	if strings.Count(src.Text, "\n") > 3 {
@@ -464,8 +552,10 @@ func c27PrefixClass(descr string) string {
 			out = append(out, n)
 		}
 	}
-	if strings.Contains(strings.Join(out, ","), "block-comment-then-statement") {
-		return "block-comment-then-statement"
+	for _, special := range []string{"unterminated-string", "block-comment-then-statement"} {
+		if seen[special] {
+			return special
+		}
 	}
 	if len(out) == 0 {
 		return "nothing"
@@ -475,8 +565,11 @@ func c27PrefixClass(descr string) string {
 
 func c27Run(c *core.Ctx) {
 	c.Rule("(a) every sequence of <= 4 AddFile(size in {0,1,10}, line offset in {0,1,7}) on etoken.FileSet and go/token.FileSet in lock-step, every Pos from 0 to the end of the set: Position/PositionFor(adjusted and not)/File/Source must equal go/token's answer with Line shifted by the file's offset, Source must return that line's text; " +
-		"(b) sources = [#!] + <= N chunks (quick 2; thorough 3, and 4 with a reduced error set) from {statement, 1 and 3 comment lines, blank lines, 3-line statement, 4-line raw string, 3-line function, 2-line general comment followed by a statement on its last line, statement with trailing comments} + a last chunk (one-line, 3-line and call-argument forms) with exactly one offending token at every operand slot: " +
-		"undefined identifier, illegal character '$', builtin len() of an int literal; plus a function with the \"break\" debugger statement at each of 4 statement positions, called from a later chunk. Each source is evaluated with Interp.EvalFile, Interp.EvalReader and a scripted line-by-line REPL (ReadParseEvalPrint loop, Line=0 at start). " +
+		"(b) sources = [#!] + <= N chunks (quick 2; thorough 3, and 4 with a single undefined identifier) from {statement, 1 and 3 comment lines, blank lines, 3-line statement, 4-line raw string, 3-line function, 2-line general comment followed by a statement on its last line, statement with trailing comments, " +
+		"2-line general comment standing alone, 4-line general comment (with an empty line) standing alone and followed by a line comment, 2-line statement that fails to compile, line with an unterminated string} + a last chunk (one-line, 3-line and call-argument forms) with exactly one offending token at every operand slot: " +
+		"undefined identifier, illegal character '$', builtin len() of an int literal; plus a function with the \"break\" debugger statement at each of 4 statement positions, called from a later chunk. " +
+		"For prefixes of <= M chunks (quick 1, thorough 2) and the undefined identifier, one further dimension at a time: the first token of the last chunk preceded inside its chunk by {a general comment on the same line, a 2-line general comment ending on the same line, blanks}; CR LF line ends throughout; the offending token behind byte 4096 of a one-line statement (two alignments of byte 4096). " +
+		"Each source is evaluated with Interp.EvalFile, Interp.EvalReader and a scripted line-by-line REPL (ReadParseEvalPrint loop, Line=0 at start). " +
 		"Oracle: file name, line and column of the offending token computed by go/scanner on the original text (and, for debugger stops, the text of that line). distinct_nontrivial = distinct file-set sequences + distinct (error kind, chunk sequence, slot) with more than 3 lines")
 	c.Assume("run-time panics of the fast interpreter carry no source position (nothing to compare): the 'panic location' of the property is covered by compile-time errors and debugger stops only",
 		"the scripted REPL numbers lines cumulatively from the start of the script, as Interp.Repl does")
